@@ -248,3 +248,8 @@ func (t *Timer) Reset(d time.Duration) bool {
 	}
 	return active
 }
+
+// Getpid / Getppid / Hostname: fixed values, so that names derived from them replay.
+func Getpid() int               { return 4242 }
+func Getppid() int              { return 4241 }
+func Hostname() (string, error) { return "simhost", nil }
